@@ -103,7 +103,7 @@ func GenHostile(t *Tape) *Scenario {
 	cfg.Seencheck = c.Chance(1, 2)
 	cfg.PoolSize = 1
 	cfg.DiscardStatus = []int{429}
-	cfg.MaxHops = c.N(2)
+	cfg.MaxHops = c.PickInt(0, 1, 1, 2)
 	// no client-side HTTP timeout: under an adversarial schedule a timeout could legitimately fail a bystander page
 	// bystanders: must be crawled completely whatever the hostile documents do
 	nBy := 1 + c.N(2)
@@ -175,7 +175,7 @@ func GenHostile(t *Tape) *Scenario {
 		sb.WriteString("</body></html>")
 		return []byte(sb.String())
 	}
-	kinds := []string{"html", "json", "xml", "sitemap", "s3", "m3u8", "pdf", "plain", "html-crafted", "html-crafted", "json-crafted", "sitemap-crafted"}
+	kinds := []string{"html", "json", "xml", "sitemap", "s3", "m3u8", "pdf", "plain", "html-crafted", "html-crafted", "json-crafted", "sitemap-crafted", "s3-crafted", "s3-crafted"}
 	nHostile := 1 + c.N(4)
 	for i := 0; i < nHostile; i++ {
 		host := c.Host()
@@ -194,6 +194,31 @@ func GenHostile(t *Tape) *Scenario {
 			jb, _ := json.Marshal(map[string]any{"a": u1, "b": []string{u2, "http://10.3.3.3/x.png"}, "c": map[string]string{"d": u1}})
 			s.ct, body = "application/json", jb
 			kind = "json"
+		case "s3-crafted":
+			// listings that are legal XML and legal S3 answers, in the shapes extractors tend to forget
+			var sb strings.Builder
+			sb.WriteString(`<?xml version="1.0"?><ListBucketResult><Name>b</Name>`)
+			sb.WriteString("<Prefix>" + c.Pick("", "p/", "p/q/") + "</Prefix>")
+			if c.Chance(1, 2) {
+				sb.WriteString("<Marker>" + c.Pick("", "k1", "p/") + "</Marker>")
+			}
+			sb.WriteString("<IsTruncated>" + c.Pick("true", "true", "false", "TRUE", "") + "</IsTruncated>")
+			for j, n := 0, c.PickInt(0, 0, 1, 2); j < n; j++ { // often no object at all on a truncated page (only common prefixes)
+				sb.WriteString("<Contents><Key>" + c.Pick("", "k"+fmt.Sprint(j), "p/k "+fmt.Sprint(j), "../k", "%zz", strings.Repeat("d/", 300)+"k") + "</Key><Size>" + c.Pick("0", "10", "-1", "x", "99999999999999999999") + "</Size></Contents>")
+			}
+			for j, n := 0, c.N(3); j < n; j++ {
+				sb.WriteString("<CommonPrefixes>")
+				for l, m := 0, c.N(3); l < m; l++ {
+					sb.WriteString("<Prefix>" + c.Pick("", "p/", "p/q"+fmt.Sprint(j)+"/", "%zz/", "a b/") + "</Prefix>")
+				}
+				sb.WriteString("</CommonPrefixes>")
+			}
+			if c.Chance(1, 2) {
+				sb.WriteString("<NextContinuationToken>" + c.Pick("", "tok", "a+b/=", "%zz") + "</NextContinuationToken>")
+			}
+			sb.WriteString("</ListBucketResult>")
+			s.ct, body = "application/xml", []byte(sb.String())
+			kind = "s3"
 		case "sitemap-crafted":
 			var sb strings.Builder
 			sb.WriteString(`<?xml version="1.0"?><urlset xmlns="http://www.sitemaps.org/schemas/sitemap/0.9">`)
@@ -218,7 +243,8 @@ func GenHostile(t *Tape) *Scenario {
 		status := 200
 		switch c.N(10) {
 		case 0:
-			hdr = append(hdr, [2]string{"Link", c.Pick("<>; rel", ";;;", "<http://x.example/l>;;=,", "<"+target+">; rel=\"next\", <", strings.Repeat("<a>, ", 500), "\xff\xfe")})
+			hdr = append(hdr, [2]string{"Link", c.Pick("<>; rel", ";;;", "<http://x.example/l>;;=,", "<"+target+">; rel=\"next\", <", strings.Repeat("<a>, ", 500), "\xff\xfe",
+				"<"+target+">; crossorigin; rel=\"preload\"", "<"+target+">; nopush", "<"+target+">; rel=preload; as=image; crossorigin", "<"+target+">;rel", "<"+target+">; =x; rel=next", "<"+target+">; a=b=c; rel=\"next\"", "<"+target+">; rel=\"next\";", "<"+target+">; title*=UTF-8''x; rel=next, <"+target+"2>; anchor", ",,<"+target+">;;rel=next,,")})
 		case 1:
 			hdr[0][1] = c.Pick("", "text/html; charset=\xff", "application/json;;;", "*/*", strings.Repeat("x", 5000), "text/html\x00")
 		case 2:
@@ -243,6 +269,9 @@ func GenHostile(t *Tape) *Scenario {
 		}
 		asAsset := c.Chance(1, 3)
 		docPath := "/h/" + c.Name("doc") + map[string]string{"html": ".html", "json": ".json", "xml": ".xml", "sitemap": ".xml", "s3": "", "m3u8": ".m3u8", "pdf": ".pdf", "plain": ".txt"}[kind]
+		if kind == "s3" && c.Chance(1, 2) {
+			docPath += c.Pick("?list-type=2", "?list-type=2&delimiter=%2F", "?delimiter=%2F&prefix=p%2F") // both listing APIs
+		}
 		r := c.res(host, docPath, "", 0, May, rp)
 		r.Tags["hostile"] = kind
 		if asAsset {
